@@ -36,6 +36,62 @@ impl Drop for RenderDepthGuard {
     }
 }
 
+/// Verification hooks: scheduling points of the render-handle protocol.
+#[cfg(jxl_oxide_verif)]
+pub mod verif_sched {
+    use std::sync::{Arc, RwLock};
+
+    /// Callbacks invoked at the synchronisation points of `FrameRenderHandle`.
+    pub trait SchedHooks: Send + Sync {
+        /// Called immediately before a render-handle lock is taken (no handle lock is held).
+        fn yield_point(&self, site: &'static str, frame_idx: usize);
+        /// Replaces the blocking condition-variable wait; returns when the caller may re-check.
+        fn cv_wait(&self, frame_idx: usize);
+        /// Called after waiters of the frame have been notified.
+        fn cv_notify(&self, frame_idx: usize);
+        /// Called around the execution of the render operation of a frame.
+        fn render_begin(&self, frame_idx: usize);
+        fn render_end(&self, frame_idx: usize);
+    }
+
+    static HOOKS: RwLock<Option<Arc<dyn SchedHooks>>> = RwLock::new(None);
+
+    /// Installs (or removes) the process-wide hooks.
+    pub fn set_sched_hooks(hooks: Option<Arc<dyn SchedHooks>>) {
+        *HOOKS.write().unwrap() = hooks;
+    }
+
+    pub(crate) fn hooks() -> Option<Arc<dyn SchedHooks>> {
+        HOOKS.read().unwrap().clone()
+    }
+
+    pub(crate) fn yield_point(site: &'static str, frame_idx: usize) {
+        if let Some(h) = hooks() {
+            h.yield_point(site, frame_idx);
+        }
+    }
+
+    pub(crate) struct RenderSpan(Option<Arc<dyn SchedHooks>>, usize);
+
+    impl RenderSpan {
+        pub(crate) fn enter(frame_idx: usize) -> Self {
+            let h = hooks();
+            if let Some(h) = &h {
+                h.render_begin(frame_idx);
+            }
+            Self(h, frame_idx)
+        }
+    }
+
+    impl Drop for RenderSpan {
+        fn drop(&mut self) {
+            if let Some(h) = &self.0 {
+                h.render_end(self.1);
+            }
+        }
+    }
+}
+
 pub type RenderOp<S> =
     Arc<dyn Fn(FrameRender<S>, Region) -> FrameRender<S> + Send + Sync + 'static>;
 
@@ -165,6 +221,8 @@ impl<S: Sample> FrameRenderHandle<S> {
 
             let render_result = {
                 let _depth = RenderDepthGuard::enter();
+                #[cfg(jxl_oxide_verif)]
+                let _span = verif_sched::RenderSpan::enter(self.frame.idx);
                 (self.render_op)(state, self.image_region)
             };
             match render_result {
@@ -198,17 +256,25 @@ impl<S: Sample> FrameRenderHandle<S> {
             let _guard = tracing::trace_span!("Run", index = self.frame.idx).entered();
 
             let _depth = RenderDepthGuard::enter();
+            #[cfg(jxl_oxide_verif)]
+            let _span = verif_sched::RenderSpan::enter(self.frame.idx);
             let render_result = (self.render_op)(state, image_region);
+            #[cfg(jxl_oxide_verif)]
+            drop(_span);
             drop(self.done_render(render_result));
         }
     }
 
     pub fn reset(&self) -> FrameRender<S> {
+        #[cfg(jxl_oxide_verif)]
+        verif_sched::yield_point("reset", self.frame.idx);
         let mut render_ref = self.render.lock().unwrap();
         std::mem::replace(&mut *render_ref, FrameRender::None)
     }
 
     fn start_render(&self) -> Result<Option<FrameRender<S>>> {
+        #[cfg(jxl_oxide_verif)]
+        verif_sched::yield_point("start_render", self.frame.idx);
         let mut render_ref = self.render.lock().unwrap();
         let render = std::mem::replace(&mut *render_ref, FrameRender::Rendering);
         match render {
@@ -229,6 +295,8 @@ impl<S: Sample> FrameRenderHandle<S> {
     }
 
     fn start_render_silent(&self) -> Option<FrameRender<S>> {
+        #[cfg(jxl_oxide_verif)]
+        verif_sched::yield_point("start_render_silent", self.frame.idx);
         let mut render_ref = self.render.lock().unwrap();
         let render = std::mem::replace(&mut *render_ref, FrameRender::Rendering);
         match render {
@@ -241,6 +309,8 @@ impl<S: Sample> FrameRenderHandle<S> {
     }
 
     pub(crate) fn wait_until_render(&self) -> Result<MutexGuard<'_, FrameRender<S>>> {
+        #[cfg(jxl_oxide_verif)]
+        verif_sched::yield_point("wait_until_render", self.frame.idx);
         let mut render_ref = self.render.lock().unwrap();
         loop {
             let render = std::mem::replace(&mut *render_ref, FrameRender::None);
@@ -248,6 +318,15 @@ impl<S: Sample> FrameRenderHandle<S> {
                 FrameRender::Rendering => {
                     tracing::trace!(index = self.frame.idx, "Waiting...");
                     *render_ref = render;
+                    #[cfg(jxl_oxide_verif)]
+                    if let Some(hooks) = verif_sched::hooks() {
+                        // The scheduler owns the interleaving: release the lock, wait for a
+                        // notification of this frame, then check again.
+                        drop(render_ref);
+                        hooks.cv_wait(self.frame.idx);
+                        render_ref = self.render.lock().unwrap();
+                        continue;
+                    }
                     render_ref = self.condvar.wait(render_ref).unwrap();
                 }
                 FrameRender::Done(_) | FrameRender::Blended(_) => {
@@ -265,9 +344,15 @@ impl<S: Sample> FrameRenderHandle<S> {
 
     pub(crate) fn done_render(&self, render: FrameRender<S>) -> MutexGuard<'_, FrameRender<S>> {
         assert!(!matches!(render, FrameRender::Rendering));
+        #[cfg(jxl_oxide_verif)]
+        verif_sched::yield_point("done_render", self.frame.idx);
         let mut guard = self.render.lock().unwrap();
         *guard = render;
         self.condvar.notify_all();
+        #[cfg(jxl_oxide_verif)]
+        if let Some(hooks) = verif_sched::hooks() {
+            hooks.cv_notify(self.frame.idx);
+        }
         guard
     }
 }
